@@ -151,7 +151,8 @@ class RoleManager(RM):
         self.all_links = list()
 
     def add_link(self, name1, name2, *domain):
-        self.all_links.append(Link(name1, name2))
+        if Link(name1, name2) not in self.all_links:
+            self.all_links.append(Link(name1, name2))
 
         user = self._get_role(name1)
         role = self._get_role(name2)
@@ -271,7 +272,8 @@ class DomainManagerBase(RM):
 
     def add_link(self, name1, name2, *domain):
         links = self._get_links(*domain)
-        links.append(Link(name1, name2))
+        if Link(name1, name2) not in links:
+            links.append(Link(name1, name2))
 
     def delete_link(self, name1, name2, *domain):
         links = self._get_links(*domain)
